@@ -204,6 +204,14 @@ class Loader(yaml.SafeLoader):
 
         recognized_type = next(iter(recognized_types))
 
+        if (
+                recognized_type in self._registered_classes.values() and
+                issubclass(recognized_type, enum.Enum) and
+                node.tag == 'tag:yaml.org,2002:bool'):
+            # an enum member that is named like a boolean: don't read
+            # this as a bool but as a string
+            node.tag = 'tag:yaml.org,2002:str'
+
         # remove syntactic sugar
         logger.debug('Savorizing node {}'.format(node))
         if recognized_type in self._registered_classes.values():
